@@ -535,6 +535,10 @@ pub fn c14_cases(quick: bool) -> Vec<SCase> {
         push(&mut out, vec![G::For(2, vec![], vec![G::Fail]), a.clone()], 2, 50, false);
         push(&mut out, vec![G::ForList(2, vec![T::I(1), T::I(2)], vec![G::Neq(x.clone(), T::I(3))]), b.clone()], 2, 50, false);
         push(&mut out, vec![G::Eq(q(), T::I(4)), G::Project(vec![0], vec![G::Eq(r(), T::list(vec![q()]))]), a.clone()], 2, 50, false);
+        // a project goal behind a closure (a relation written as a function), entered by several
+        // states: the closure rebuilds its body, and with it the projection, for every state
+        push(&mut out, vec![G::Conde(vec![vec![G::Eq(q(), T::I(4))], vec![G::Eq(q(), T::I(5))], vec![G::Eq(q(), T::list(vec![T::I(6)]))]]), G::Call("projo".into(), vec![q(), r()]), a.clone()], 2, 50, false);
+        push(&mut out, vec![G::Fresh(vec![2], vec![G::Conde(vec![vec![G::Eq(q(), T::I(4))], vec![G::Eq(q(), T::I(5))]]), G::Call("projo".into(), vec![q(), x.clone()]), G::Call("projo".into(), vec![x.clone(), r()])])], 2, 50, false);
     }
     // (4) query-variable order: 1..3 query variables, each bound to a distinct value
     for nq in 1..=3u32 {
